@@ -328,6 +328,7 @@ func (handle *writeTxnHandle) Abort() {
 	}
 
 	txn := handle.writeTxnState
+	vhook("abort.begin")
 	for _, table := range txn.tableEntries {
 		if table.locked {
 			table.meta.released()
@@ -337,6 +338,7 @@ func (handle *writeTxnHandle) Abort() {
 	txn.duration.Store(uint64(time.Since(txn.acquiredAt)))
 
 	txn.smus.Unlock()
+	vhook("abort.unlocked")
 	txn.db.metrics.WriteTxnDuration(
 		txn.handle,
 		txn.tableNames,
@@ -369,6 +371,7 @@ func (handle *writeTxnHandle) Commit() ReadTxn {
 		return nil
 	}
 	txn := handle.writeTxnState
+	vhook("commit.begin")
 
 	txn.duration.Store(uint64(time.Since(txn.acquiredAt)))
 
@@ -398,10 +401,12 @@ func (handle *writeTxnHandle) Commit() ReadTxn {
 		db.metrics.Revision(name, table.revision)
 	}
 
+	vhook("commit.indexes")
 	// Acquire the lock on the root tree to sequence the updates to it. We can acquire
 	// it after we've built up the new table entries above, since changes to those were
 	// protected by each table lock (that we're holding here).
 	db.mu.Lock()
+	vhook("commit.rootlocked")
 
 	// Since the root may have changed since the pointer was last read in WriteTxn(),
 	// load it again and modify the latest version that we now have immobilised by
@@ -436,7 +441,9 @@ func (handle *writeTxnHandle) Commit() ReadTxn {
 	// Commit the transaction to build the new root tree and then
 	// atomically store it.
 	db.root.Store(&root)
+	vhook("commit.stored")
 	db.mu.Unlock()
+	vhook("commit.rootunlocked")
 
 	// Now that new root is committed, we can notify readers by closing the watch channels of
 	// mutated radix tree nodes in all changed indexes and on the root itself.
@@ -444,13 +451,16 @@ func (handle *writeTxnHandle) Commit() ReadTxn {
 		txn.notify()
 	}
 
+	vhook("commit.notified")
 	// With the root pointer updated, we can now release the tables for the next write transaction.
 	txn.smus.Unlock()
+	vhook("commit.tablesunlocked")
 
 	// Notify table initializations
 	for _, ch := range initChansToClose {
 		close(ch)
 	}
+	vhook("commit.initclosed")
 
 	txn.db.metrics.WriteTxnDuration(
 		txn.handle,
